@@ -14,8 +14,6 @@ Driver for C14: replays the harness' operations on the Transportation1d model.
 -/
 open ColoVerif.Transp1d Driver
 
-def fuel : Nat := 1000000
-
 def showErr : Err → String
   | .indexOutOfRange => "err:indexOutOfRange"
   | .invalid => "throw:runtime_error"
@@ -71,15 +69,15 @@ def step (pb : Problem) : List String → Problem × List String
     | .ok pb' => (pb', [line "balance" (showInts pb'.d)])
     | .error e => (pb, ["balance " ++ showErr e])
   | ["solve"] =>
-    match solve fuel pb with
+    match solve pb with
     | .ok p => (pb, [line "solve" (showPlan p)])
     | .error e => (pb, ["solve " ++ showErr e])
   | ["assign"] =>
-    match assign fuel pb with
+    match assign pb with
     | .ok a => (pb, [line "assign" (showNats a)])
     | .error e => (pb, ["assign " ++ showErr e])
   | ["cert"] =>
-    match solve fuel pb with
+    match solve pb with
     | .ok p =>
       let (al, be) := potentials pb p
       (pb, [if certOk pb p al be then "cert ok" else "cert FAIL"])
